@@ -767,9 +767,11 @@ class CaseBuilder:
         self.sigs.append(dict(shape=list(shape), dyad=1) if dyad else dict(shape=list(shape)))
         return len(self.sigs) - 1
 
-    def src(self, shape, dyad=0):
+    def src(self, shape, dyad=0, layout=None):
         s = self.sig(shape, dyad)
         self.sources[str(s)] = _vec(size_of(shape), s)
+        if layout:
+            self.sigs[s]['layout'] = layout
         return s
 
     def ref(self, s, *index):
@@ -990,6 +992,25 @@ def stress_cases():
         return {g0: [1, 2], g1: [-1], g2: [1, 1], g3: [2, 1], g4: [1]}, None
     dy('into-2d-slices', d_slices)
 
+    # ---- memory layouts: non-C-contiguous multi-dimensional arrays entering the library ConcatSignal (directly from a
+    #      source, as output of EinSum 'ij->ji', of the transpose module, of an elementwise module that keeps the layout)
+    for lay in LAYOUTS + [None]:
+        for shape in [(2, 3), (2, 3, 2)]:
+            b = CaseBuilder()
+            u, x = b.src(shape, layout=lay), b.src((2,))
+            c = b.mod('concat', [u, x, b.ref(u, 1)], [(size_of(shape) + 2 + size_of(shape[1:]),)])
+            f = b.lin([c, u], [(2,)])
+            out.append((f"layout:source:{lay}:{'x'.join(map(str, shape))}", b.case({f: [1, -1], c: _vec(size_of(shape) + 2 + size_of(shape[1:]), 3)})))
+        b = CaseBuilder()
+        u = b.src((2, 3), layout=lay)
+        e = b.mod('einsum', [u], [(3, 2)], expr='ij->ji')
+        t = b.mod('transpose', [u], [(3, 2)])
+        q = b.mod('sq', [t], [(3, 2)])
+        c1 = b.mod('concat', [e, u], [(12,)])
+        c2 = b.mod('concat', [b.ref(u, (S_(None), S_(0, 3, 2))), t, q], [(16,)], as_dict=1)
+        f = b.lin([c1, c2], [(2,)])
+        out.append((f'layout:module-outputs:{lay}', b.case({f: [1, 2], c2: _vec(16, 1)}, tree=[0, [1, 2], [3, 4], 5])))
+
     # ---- construction histories: the only seeded outputs are produced by modules of inner networks
     def h_two_paths(b):         # y = x*x; inner: z = L y, g = y*z (y reaches g along two paths)
         x = b.src((3,))
@@ -1112,6 +1133,10 @@ def decorate(rng, case, stats):
     """widen a random case: user-defined sensitivity types on eligible signals, modules without outputs / inputs, a
     construction history"""
     sigs, mods = case['signals'], case['modules']
+    for k in case['sources']:           # memory layout of multi-dimensional source arrays
+        if len(sigs[int(k)]['shape']) >= 2 and rng.random() < 0.3:
+            sigs[int(k)]['layout'] = rng.choice(LAYOUTS)
+            stats('source-layout:' + sigs[int(k)]['layout'])
     if rng.random() < 0.45:
         producer = {o: m for m in mods for o in m['outs']}
         for s_, sg in enumerate(sigs):
@@ -1396,11 +1421,34 @@ def make_network(pym, members, opts):
     return net
 
 
+LAYOUTS = ['F', 'T', 'strided']
+
+
+def source_array(case, key, v):
+    """the state a source signal is given: values v (row-major) in the memory layout the case asks for: default C order;
+    'F' Fortran order; 'T' a transposed view of a C-ordered array; 'strided' every second entry of a larger array"""
+    sg = case['signals'][int(key)]
+    sh = tuple(sg['shape'])
+    if not len(sh):
+        return float(v[0])
+    a = np.array(v, dtype=float).reshape(sh)
+    lay = sg.get('layout')
+    if lay == 'F':
+        a = np.asfortranarray(a)
+    elif lay == 'T':
+        a = np.ascontiguousarray(a.T).T
+    elif lay == 'strided':
+        big = np.full(tuple(2 * n + 1 for n in sh), 77.0)
+        view = big[tuple(slice(1, None, 2) for _ in sh)]
+        view[...] = a
+        a = view
+    return a
+
+
 def build(pym, classes, case, on_event=None):
     sigs = [pym.Signal(f's{i}') for i in range(len(case['signals']))]
     for k, v in case['sources'].items():
-        sh = tuple(case['signals'][int(k)]['shape'])
-        sigs[int(k)].state = np.array(v, dtype=float).reshape(sh) if len(sh) else float(v[0])
+        sigs[int(k)].state = source_array(case, k, v)
 
     def mkref(r):
         s = sigs[r['sig']]
@@ -1745,6 +1793,21 @@ def coq_checks(case, states, sens):
 
 
 # ----------------------------------------------------------------------------- oracle
+def oracle_concat(case, states):
+    """response of the library ConcatSignal == row-major concatenation of its inputs (whatever their memory layout)"""
+    bad = []
+    for m in case['modules']:
+        if m['kind'] != 'concat':
+            continue
+        exp = []
+        for r in m['ins']:
+            pos, _, _ = ref_positions(tuple(case['signals'][r['sig']]['shape']), r['levels'] or [])
+            exp += [states[r['sig']][p_] for p_ in pos]
+        if exp != states[m['outs'][0]]:
+            bad.append((m['outs'][0], exp, states[m['outs'][0]]))
+    return bad
+
+
 def oracle_dense(case, states, sens):
     """exact dense forward-mode Jacobian product: d(sum_o <w_o, state_o>)/d(source) from per-module Jacobians"""
     n = len(case['signals'])
@@ -1809,7 +1872,7 @@ def oracle_fd(pym, classes, case, sens):
         for key, v in case['sources'].items():
             sh = tuple(case['signals'][int(key)]['shape'])
             v = [x + (j if (int(key) == s and i == k) else 0) for i, x in enumerate(v)]
-            sigs[int(key)].state = np.array(v, dtype=float).reshape(sh) if len(sh) else float(v[0])
+            sigs[int(key)].state = source_array(case, key, v)
         with limited(), contextlib.redirect_stdout(io.StringIO()):
             net.response()
         tot = 0
@@ -1997,7 +2060,8 @@ def run(ctx):
     ctx.rule = ('fixed cases first (corpus/C02/*.json, then the deterministic stress catalogue stress_cases(): every print_timing '
                 'value x construction form on flat and nested depth>=2 networks, every index form of INDEX_CATALOGUE on 1-/2-/3-D '
                 'signals in a fan-out/fan-in network, DyadCarrier pass-through / transformation / later accumulation / seeds / '
-                'slices; construction histories (post-order / breadth-first / depth-first x plain / evaluated after every append / '
+                'slices; Fortran-ordered / transposed-view / strided 2-D and 3-D arrays entering ConcatSignal from sources and '
+                'from EinSum ij->ji / transpose / square outputs; construction histories (post-order / breadth-first / depth-first x plain / evaluated after every append / '
                 'shadow networks) on 4 nested graphs whose only seeds sit on outputs of inner networks; modules without outputs '
                 '(injecting, sink) / without inputs, untouched seeded signals; user-defined sensitivity types (__iadd__, '
                 'add_sensitivity returning None / self) x fan-out, seeded typed intermediate, aliasing modules); then random module DAGs (2-9 modules, 1-4 sources, signal shapes () / (n<=4) / (a<=3, b<=4) / '
@@ -2173,13 +2237,21 @@ def run(ctx):
                               'append() calls', 'construction history', dict(name=name, case=case),
                               expected=ref, got=[states, sens])
                 continue
+        if any(m['kind'] == 'concat' for m in case['modules']):
+            ctx.search_evaluations += 1
+            bad = oracle_concat(case, states)
+            if bad:
+                ctx.violation('impl-violates', 'ConcatSignal.response', 'state == row-major concatenation of the input states',
+                              'module DAG', dict(name=name, case=case), expected=[b[1] for b in bad], got=[b[2] for b in bad])
+                continue
         ctx.search_evaluations += 1
         bad = oracle_dense(case, states, sens)
         if bad:
             ctx.violation('impl-violates', 'Network.sensitivity', 'source sensitivity == dense forward-mode total derivative',
                           'module DAG', dict(name=name, case=case), expected=[b[1] for b in bad], got=[b[2] for b in bad])
             continue
-        if any(is_nonlinear(m) for m in case['modules']) or ctx.search_evaluations % 10 == 0:
+        if any(is_nonlinear(m) for m in case['modules']) or ctx.search_evaluations % 10 == 0 or \
+                (not name.startswith('gen:') and any(m['kind'] == 'concat' for m in case['modules'])):
             try:
                 bad, skipped = oracle_fd(pym, classes, case, sens)
             except Exception as e:
